@@ -66,6 +66,18 @@ def brace_balance(v):
     return depth == 0
 
 
+def complete_escapes(v):
+    i = 0
+    while i < len(v):
+        if v[i] == '\\':
+            if i + 1 >= len(v):
+                return False
+            i += 2
+            continue
+        i += 1
+    return True
+
+
 def ends_in_control_word(v):
     k = v.rfind('\\')
     return k >= 0 and v[k + 1:].isalpha()
@@ -85,6 +97,7 @@ def register(reg):
             checks = [
                 ('ascii', lambda k, v: v.isascii()),
                 ('braces-balanced', lambda k, v: brace_balance(v)),
+                ('no-dangling-escape: every backslash is followed by a character', lambda k, v: complete_escapes(v)),
                 ('no-unescaped-comment-char', lambda k, v: not unescaped(v, '%')),
                 ('math-shifts-inside-a-value-are-balanced', lambda k, v: len(unescaped(v, '$')) % 2 == 0),
                 ('no-unescaped-#&', lambda k, v: not unescaped(v, '#&')),
@@ -194,7 +207,7 @@ from pylatexenc.latexnodes import nodes as N
 
 def search():
     active = "\\{}$&#^_%~"
-    alphabet = list(active) + ["a", " ", "é", "α", "͸", "\x01", "\U0001F600", "<", '"']
+    alphabet = list(active) + ["a", " ", "é", "α", "͸", "\x01", "\U0001F600", "<", '"', "\x80", "\u2028", "\u02da"]
     for ruleset in ("defaults", "unicode-xml"):
         tab = get_builtin_conversion_rules(ruleset)[0].rule
         for prot in ("braces", "braces-almost-all", "braces-all", "braces-after-macro"):
@@ -216,6 +229,11 @@ def search():
                         return "policy 'fail' did not raise for %r (unencodable: %r)" % (s, unenc)
                     if not out.isascii():
                         return "output %r for %r is not ASCII (rules %s, %s, %s)" % (out, s, ruleset, prot, policy)
+                    if ruleset == "defaults" or "\u2028" in s:
+                        try:
+                            LatexWalker(out, tolerant_parsing=False).parse_content(LatexGeneralNodesParser())
+                        except LatexWalkerParseError as e:
+                            return "output %r for %r does not parse in strict mode: %s (rules %s, %s, %s)" % (out, s, e, ruleset, prot, policy)
     return None
 '''
 
